@@ -41,6 +41,13 @@ pub fn lite() -> bool {
     LITE.load(std::sync::atomic::Ordering::Relaxed)
 }
 
+/// "Deep" pass (C01 only): the binary built without optimisation, long runs on small stacks
+pub static DEEP: std::sync::atomic::AtomicBool = std::sync::atomic::AtomicBool::new(false);
+
+pub fn deep() -> bool {
+    DEEP.load(std::sync::atomic::Ordering::Relaxed)
+}
+
 /// where evidence/ and replays/ are written: /verif, or VERIF_OUT_DIR for
 /// trial runs against seeded defects (so committed evidence is never clobbered)
 pub fn out_dir() -> PathBuf {
@@ -959,7 +966,7 @@ fn write_replay(run: &Run, v: &Violation, n: usize) -> PathBuf {
         "actual": v.actual,
         "replay_cmd": format!("./check {} --replay <this file>", run.prop),
         "unit_test": unit_test_for(v),
-        "build_profile": if lite() { "userrel" } else { "release-with-checks" },
+        "build_profile": if deep() { "deep" } else if lite() { "userrel" } else { "release-with-checks" },
     });
     let text = serde_json::to_string_pretty(&body).unwrap();
     // name by content hash (FNV) so the same case maps to the same file
@@ -1088,7 +1095,9 @@ where
             machinery_error = Some(format!("cannot write evidence: {}", e));
         }
     }
-    if lite() {
+    if deep() {
+        println!("-- unoptimised build, long runs on 128 KiB stacks --");
+    } else if lite() {
         println!("-- plain release profile (no overflow checks / debug assertions), reduced space --");
     }
     println!(
